@@ -115,13 +115,13 @@ func runC17(c *Ctx) {
 	isDel := func(in ssa.Instruction) bool {
 		for _, d := range dels {
 			if d == in {
-				return ff.Term(d.Common().Args[1]).String() == keyT.String()
+				return ff.Term(ArgK(d, 1)).String() == keyT.String()
 			}
 		}
 		switch x := in.(type) {
 		case *ssa.Call:
 			// the delete itself, wherever the path search finds it (new helpers, literals run under a lock helper)
-			if CalleeName(x.Common()) == "builtin:delete" && x.Parent() != send && ff.Term(x.Common().Args[0]).Any(IsField(mp, "resCh").F) && ff.Term(x.Common().Args[1]).String() == keyT.String() {
+			if CalleeName(x.Common()) == "builtin:delete" && x.Parent() != send && ff.Term(ArgK(x, 0)).Any(IsField(mp, "resCh").F) && ff.Term(ArgK(x, 1)).String() == keyT.String() {
 				return true
 			}
 			return releasesInCallee(x.Common())
@@ -314,13 +314,13 @@ func runC17(c *Ctx) {
 		c.Require("C17.R10 correlation", FuncKey(send)+": registration key", p.InstrPos(reg), "registered under the ID of the very request message that is sent", okKey && sent, "key: "+keyT.String())
 		// responder: respond(…, newMsg.ID, …) with newMsg the decoded request
 		for _, s := range CallsIn(onReq, "(*p2p.MessageProtocol).respond") {
-			t := T(s.Call.Common().Args[3])
+			t := T(ArgK(s.Call, 3))
 			dec := CallsIn(onReq, "(*p2p.Request).Decode")
-			ok := t.Op == "field" && t.Sym == "ID" && t.Owner == "p2p.Request" && len(dec) == 1 && T(dec[0].Call.Common().Args[0]).String() == t.Args[0].String()
+			ok := t.Op == "field" && t.Sym == "ID" && t.Owner == "p2p.Request" && len(dec) == 1 && T(ArgK(dec[0].Call, 0)).String() == t.Args[0].String()
 			c.Require("C17.R10 correlation", FuncKey(onReq)+": respond(reqID)", p.InstrPos(s.Call), "the response is created with the decoded request's ID", ok, t.String())
 		}
 		for _, s := range CallsIn(respond, "p2p.newResponseMessage") {
-			t := T(s.Call.Common().Args[0])
+			t := T(ArgK(s.Call, 0))
 			c.Require("C17.R10 correlation", FuncKey(respond)+": newResponseMessage(reqMsgID)", p.InstrPos(s.Call), "respond forwards its reqMsgID parameter as the response ID", t.Op == "param" && t.Sym == "p3", t.String())
 		}
 		// newResponseMessage stores param 0 into ID
@@ -350,7 +350,7 @@ func runC17(c *Ctx) {
 				n++
 				t := rf.Term(lk.Index)
 				dec := CallsIn(onResp, "(*p2p.responseMsg).Decode")
-				ok := t.Op == "field" && t.Sym == "ID" && t.Owner == "p2p.responseMsg" && len(dec) == 1 && T(dec[0].Call.Common().Args[0]).String() == t.Args[0].String()
+				ok := t.Op == "field" && t.Sym == "ID" && t.Owner == "p2p.responseMsg" && len(dec) == 1 && T(ArgK(dec[0].Call, 0)).String() == t.Args[0].String()
 				c.Require("C17.R10 correlation", FuncKey(onResp)+": lookup key", p.InstrPos(lk), "pending entry is looked up by the decoded response's ID", ok, t.String())
 			}
 		}
